@@ -28,6 +28,7 @@ LEAVES = {
     "github.com/goose-lang/primitive/disk": "disk.Size()",
     "github.com/goose-lang/primitive/async_disk": "uint64(async_disk.BlockSize)",
     "github.com/mit-pdos/gokv/grove_ffi": "grove_ffi.Token()",
+    "github.com/mit-pdos/gokv/time": "time.Stamp()",
     "github.com/tchajed/marshal": "uint64(len(marshal.NewEnc(8).Finish()))",
     "example.org/go-journal.v2/util": "util.F()",
     "example.org/go-journal.v2/trusted_lib": "trusted_lib.F()",
@@ -43,7 +44,8 @@ BUILTIN = {"fmt", "log", "sync", "github.com/goose-lang/goose/machine", "github.
            "github.com/mit-pdos/gokv/time", "github.com/mit-pdos/vmvcc/cfmutex"}
 # transitive dependency edges of the leaves that matter for FFI detection (primitive/disk does not
 # import machine/disk; machine/async_disk imports machine/disk but is an FFI itself: hidden)
-LEAF_DEPS = {"github.com/goose-lang/goose/machine/async_disk": ["github.com/goose-lang/goose/machine/disk"]}
+LEAF_DEPS = {"github.com/goose-lang/goose/machine/async_disk": ["github.com/goose-lang/goose/machine/disk"],
+             "github.com/mit-pdos/gokv/time": ["github.com/mit-pdos/gokv/grove_ffi"]}
 
 
 def pkg_source(pkgname, files_imports):
@@ -160,7 +162,8 @@ def scenarios(seed, tier):
             src["f0.go"] += "\nfunc F() uint64 {\n\treturn 9\n}\n"
             pkgs[hd] = src
         yield {"pkgs": pkgs, "root_pkg": root_pkg, "pdir": pdir, "graph": graph, "imports": all_imps,
-               "grove_uses_disk": grove_uses_disk, "k": k}
+               "grove_uses_disk": grove_uses_disk, "k": k,
+               "out": rnd.choice(["Goose", "Goose", "coq-out.d", "out.v1/sub-dir", "a.b-c"])}
 
 
 def model_lines(sc):
@@ -180,8 +183,9 @@ def check(ctx):
         for sc in scenarios(ctx.seed, ctx.tier):
             root = os.path.join(scratch, "m")
             gomod.write_module(root, sc["pkgs"], grove_uses_disk=sc["grove_uses_disk"])
-            rc, out, err = gomod.run_goose(root, ["-ignore-errors"], ["./" + sc["pdir"]])
-            tr = gomod.tree(os.path.join(root, "Goose"))
+            rc, out, err = gomod.run_goose(root, ["-ignore-errors"], ["./" + sc["pdir"]], out=sc.get("out", "Goose"))
+            tr = {k: v for k, v in gomod.tree(root).items() if k.endswith(".v")}
+            tr = {(k[len(sc.get("out", "Goose")) + 1:] if k.startswith(sc.get("out", "Goose") + "/") else "<module root>/" + k): v for k, v in tr.items()}
             stats["scenarios"] += 1
             ffis = spec_ffi(sc["graph"], sc["root_pkg"])
             stats["ffi_count_%d" % min(len(ffis), 2)] += 1
@@ -228,7 +232,7 @@ def check(ctx):
             if problem and not found:
                 found = True
                 ctx.violation("counterexample", "goose header / FFI / Require lines / output path vs the property",
-                              {"proto": "cli-header", "packages": sc["pkgs"], "pattern": "./" + sc["pdir"], "grove_uses_disk": sc["grove_uses_disk"]},
+                              {"proto": "cli-header", "packages": sc["pkgs"], "pattern": "./" + sc["pdir"], "grove_uses_disk": sc["grove_uses_disk"], "out": sc.get("out", "Goose")},
                               expected={"ffis_reachable": sorted(ffis), "requires": spec_requires(sc["imports"]), "out_path": want_path},
                               observed=dict(observed, problem=problem))
             shutil.rmtree(root, ignore_errors=True)
